@@ -61,6 +61,30 @@ func (e *Engine) VerifyFunc(fn *ssa.Function, ct *FuncContract) (obls []*Obligat
 			}
 			fr.env[f] = v
 			fv.Binds = append(fv.Binds, v)
+			for _, n := range ct.PubCells {
+				if l, ok := v.(*Loc); ok && n == f.Name() && l.Base != nil {
+					if c.pubCells == nil {
+						c.pubCells = map[string]*Loc{}
+					}
+					c.pubCells[l.Base.S] = l
+				}
+			}
+		}
+	}
+	// captured variables are distinct variables
+	if fv != nil {
+		var bases []*Term
+		for _, b := range fv.Binds {
+			if l, ok := b.(*Loc); ok && l.Kind == "cell" && l.Base != nil {
+				bases = append(bases, l.Base)
+			}
+		}
+		if len(bases) > 1 {
+			var parts []string
+			for _, b := range bases {
+				parts = append(parts, b.S)
+			}
+			c.fact(T(SBool, "(distinct "+strings.Join(parts, " ")+")"))
 		}
 	}
 	fr.args = args
@@ -80,6 +104,10 @@ func (e *Engine) VerifyFunc(fn *ssa.Function, ct *FuncContract) (obls []*Obligat
 	c.fact(Not(Select(c.allocHeap(st), c.me)))
 	for _, g := range c.ghostMaps() {
 		if g.kind == "owned" {
+			if ct != nil && strings.Contains(" "+ct.Opts["inherits"]+" ", " "+g.name+" ") {
+				// entries of this map may have been handed to this invocation by whoever spawned it (see the precondition)
+				continue
+			}
 			ks, _ := arrParts(g.sort)
 			h := c.heap(st, g.heap, g.sort)
 			c.fact(T(SBool, fmt.Sprintf("(forall ((k %s)) (! (not (= (select %s k) me)) :pattern ((select %s k))))", ks, h.S, h.S)))
